@@ -109,14 +109,9 @@ theorem altSteps_xidx {cx : Ctx} {rule : Rule} {nt : Nat} :
 
 theorem ruleStep_xidx {cx : Ctx} {rule : Rule} {st st' : XSt} (hx : XIdx st)
     (h : ruleStep cx rule st = .ok st') : XIdx st' := by
-  unfold ruleStep at h
-  split at h
-  · cases h
-  · split at h
-    · cases h
-    · split at h
-      · exact altSteps_xidx hx h
-      · exact altSteps_xidx (st := { st with nextNt := st.nextNt + 1 }) hx h
+  rcases ruleStep_ok h with ⟨nt, hf, h⟩ | ⟨hf, h⟩
+  · exact altSteps_xidx hx h
+  · exact altSteps_xidx (st := { st with nextNt := st.nextNt + 1 }) hx h
 
 theorem ruleSteps_xidx {cx : Ctx} :
     ∀ {rules : List Rule} {st st' : XSt}, XIdx st → ruleSteps cx rules st = .ok st' → XIdx st'
